@@ -19,7 +19,40 @@ REAL_VS_STUB = {
     "http": "STUB: HTTP transport is an in-memory RoundTripper routing to in-process handlers or scripted servers",
 }
 
+_WORLD_A = ["balloon", "fsm", "rocks", "raftlog", "raft", "grpc", "apihttp", "protocol"]
+_WORLD_A_ASSUME = [
+    "hashicorp/raft is replaced by a single-threaded consensus environment that issues only FSM/log-store calls raft v1.1.1 can issue (DESIGN.md §5.4)",
+    "process-crash model: a completed RocksDB write survives, nothing below the RocksDB C API is injected",
+    "reference history/sparse trees (sim/ref.go) are the specification of the digests; SHA-256 is shared with the repo",
+]
+
+
+def _wa(quick_seeds=160, thorough_seeds=4000, chunk=8):
+    return {
+        "quick": {"seeds": quick_seeds, "chunk": chunk, "wall_s": 420, "worker_timeout_s": 600},
+        "thorough": {"seeds": thorough_seeds, "chunk": 20, "wall_s": 2400, "worker_timeout_s": 1800},
+    }
+
+
 PROPS = {
+    "C01": dict({
+        "level": "exploration",
+        "technique": "deterministic simulation: seeded workloads and fault schedules on a simulated cluster of real FSMs/RocksDB; client verifier judged against independent reference trees",
+        "design_ref": "DESIGN.md §7 C01",
+        "level_text": "Seeded exploration of event sequences (single/bulk adds via API, HTTP handler and crafted commands; SHA-256, shared-prefix and repeated digests) interleaved with restarts, leadership changes, compaction and state transfer; after the run and at seeded points every running replica is asked for membership proofs for sampled (event, version) pairs (all pairs when the log is small), the answer is pushed through the JSON wire and must verify against digests computed by independent reference trees.",
+        "level_note": "Trusted: reference trees (calibrated, golden vectors), SHA-256, the consensus environment's fidelity to raft. Sampled, not exhaustive.",
+        "rule": "one evaluation = one seeded tape on a 1- or 3-node simulated cluster; distinct = distinct (log size, event, query version) triples verified plus distinct tapes; non-trivial = log of at least 3 events",
+        "components": _WORLD_A, "assumptions": _WORLD_A_ASSUME,
+    }, **_wa()),
+    "C03": dict({
+        "level": "exploration",
+        "technique": "deterministic simulation: seeded workloads and fault schedules on a simulated cluster; incremental proofs judged against reference trees, forks and tampering injected on the wire",
+        "design_ref": "DESIGN.md §7 C03",
+        "level_text": "Seeded exploration: for states reached as in C01, consistency proofs for sampled (i,j) pairs (all pairs for small logs) served by any running replica must verify after the JSON wire against reference history digests, and must be rejected with another version's digest, with the digest of a forked log (divergence point sampled over 0..j), and with altered Start/End/audit-path entries; invalid ranges must be refused.",
+        "level_note": "Trusted: reference history tree, SHA-256, environment fidelity. Sampled, not exhaustive.",
+        "rule": "one evaluation = one seeded tape; distinct = distinct (log size, i, j) triples verified plus distinct tapes; non-trivial = log of at least 3 events",
+        "components": _WORLD_A, "assumptions": _WORLD_A_ASSUME,
+    }, **_wa()),
     "C14": {
         "level": "exploration",
         "technique": "deterministic simulation: seeded op/reopen tapes on both real back-ends vs per-table sorted-map model, ddmin-minimised replayable tapes",
